@@ -123,6 +123,12 @@ func (e *Eval) call(fr *frame, x *ssa.Call, st State) AV {
 		}
 		return TupleV(res)
 	}
+	if callee.Pkg != nil && e.P.InModule(callee.Pkg) && len(args) == 1 && e.P.nfkdHelper(callee) {
+		// norm.NFKD.String with the copy skipped for normalised text (nfkdHelper)
+		res := nfkdOf(args[0])
+		e.record(fr, x, "(golang.org/x/text/unicode/norm.Form).String", nil, []AV{CInt(int64(norm.NFKD)), args[0]}, res, st)
+		return res
+	}
 	if callee.Pkg != nil && e.P.InModule(callee.Pkg) && len(args) == 1 {
 		if sep, ok := e.P.byteSplitter(callee); ok {
 			// a hand-written strings.Split(s, sep) (matched whole, see byteSplitter)
@@ -847,6 +853,148 @@ func bufferRendered(bp BufPartsV, site ssa.Instruction) *QuoteRender {
 	return qr
 }
 
+// cursorOf: s is what is left of a sentence cut word by word — the whole input (cursor 0), a
+// cursor, or a token (then k is its index): the virtual tokens and k.
+func (e *Eval) cursorOf(s StrV) (*TokensV, int64, bool) {
+	switch s.Kind {
+	case skCursor, skTok:
+		if s.Toks != nil {
+			if k, ok := s.Idx.Const(); ok {
+				return s.Toks, k, true
+			}
+		}
+		return nil, 0, false
+	}
+	if t := e.walkToks[s.String()]; t != nil {
+		return t, 0, true
+	}
+	return nil, 0, false
+}
+
+// nfkdOf: norm.NFKD.String of an abstract string.
+func nfkdOf(arg AV) AV {
+	if s, ok := arg.(StrV); ok && s.Kind == skConst {
+		return CStr(norm.NFKD.String(s.S))
+	}
+	if s, ok := arg.(StrV); ok && s.Kind == skJoin {
+		if sep, ok := s.Sep.(StrV); ok && sep.Kind == skConst && joinOfListWords(s.Arr) {
+			// NFKD of a join of NFKD-stable words (T5w) with a separator made of starters:
+			// the words are unchanged and only the separator is normalised
+			n := s
+			n.Sep = CStr(norm.NFKD.String(sep.S))
+			return n
+		}
+	}
+	return StrV{Kind: skNFKD, X: arg}
+}
+
+// nfkdHelper recognises a module function that is norm.NFKD.String with the copy skipped for
+// text that is in that form already:
+//
+//	func nfkd(s string) string {
+//		if norm.NFKD.IsNormalString(s) { return s }
+//		return norm.NFKD.String(s)
+//	}
+//
+// (either polarity).  IsNormalString(s) holds exactly when String(s) == s (x/text documents
+// String as returning s itself then), so the function is norm.NFKD.String.
+func (p *Program) nfkdHelper(fn *ssa.Function) bool {
+	if fn == nil || len(fn.Blocks) == 0 || fn.Pkg == nil || !p.InModule(fn.Pkg) {
+		return false
+	}
+	if p.nfkdFns == nil {
+		p.nfkdFns = map[*ssa.Function]bool{}
+	}
+	if v, done := p.nfkdFns[fn]; done {
+		return v
+	}
+	ok := matchNFKDHelper(fn)
+	p.nfkdFns[fn] = ok
+	return ok
+}
+
+func matchNFKDHelper(fn *ssa.Function) bool {
+	sig := fn.Signature
+	if sig.Recv() != nil || sig.Params().Len() != 1 || sig.Results().Len() != 1 || len(fn.FreeVars) != 0 || len(fn.Blocks) != 3 {
+		return false
+	}
+	for _, t := range []types.Type{sig.Params().At(0).Type(), sig.Results().At(0).Type()} {
+		if b, ok := t.Underlying().(*types.Basic); !ok || b.Kind() != types.String {
+			return false
+		}
+	}
+	s := ssa.Value(fn.Params[0])
+	isForm := func(c *ssa.Call, method string) bool {
+		callee := c.Call.StaticCallee()
+		if callee == nil || callee.String() != "(golang.org/x/text/unicode/norm.Form)."+method || len(c.Call.Args) != 2 || c.Call.Args[1] != s {
+			return false
+		}
+		f, ok := intConst(c.Call.Args[0])
+		return ok && f == int64(norm.NFKD)
+	}
+	var test, conv *ssa.Call
+	var branch *ssa.If
+	var retS, retConv *ssa.Return
+	for _, b := range fn.Blocks {
+		for _, in := range b.Instrs {
+			switch x := in.(type) {
+			case *ssa.DebugRef, *ssa.UnOp:
+				if u, ok := in.(*ssa.UnOp); ok && u.Op != token.NOT {
+					return false
+				}
+			case *ssa.Call:
+				switch {
+				case isForm(x, "IsNormalString") && test == nil:
+					test = x
+				case isForm(x, "String") && conv == nil:
+					conv = x
+				default:
+					return false
+				}
+			case *ssa.If:
+				if branch != nil {
+					return false
+				}
+				branch = x
+			case *ssa.Return:
+				if len(x.Results) != 1 {
+					return false
+				}
+				switch {
+				case x.Results[0] == s && retS == nil:
+					retS = x
+				case conv != nil && x.Results[0] == ssa.Value(conv) && retConv == nil:
+					retConv = x
+				default:
+					return false
+				}
+			default:
+				return false
+			}
+		}
+	}
+	if test == nil || conv == nil || branch == nil || retS == nil || retConv == nil || test.Block() != fn.Blocks[0] || branch.Block() != fn.Blocks[0] {
+		return false
+	}
+	// the branch is on the test (possibly negated); `return s` sits on the side where it holds
+	cond, hold := branch.Cond, true
+	for {
+		u, ok := cond.(*ssa.UnOp)
+		if !ok || u.Op != token.NOT {
+			break
+		}
+		hold, cond = !hold, u.X
+	}
+	if cond != ssa.Value(test) {
+		return false
+	}
+	normal := fn.Blocks[0].Succs[0]
+	if !hold {
+		normal = fn.Blocks[0].Succs[1]
+	}
+	return retS.Block() == normal && retConv.Block() != normal && conv.Block() == retConv.Block()
+}
+
 func isASCII(s string) bool {
 	for i := 0; i < len(s); i++ {
 		if s[i] >= 0x80 {
@@ -1000,7 +1148,82 @@ func (e *Eval) model(fr *frame, x *ssa.Call, callee *ssa.Function, args []AV, st
 			}
 		}
 		return ret(TopStr("Join of " + shortAV(args[0])))
+	case "strings.TrimRight", "strings.TrimLeft", "strings.Trim", "strings.TrimSuffix", "strings.TrimPrefix":
+		// of constants: the constant result (a base URL with its trailing slash removed)
+		if a0, ok := args[0].(StrV); ok && a0.Kind == skConst {
+			if a1, ok := args[1].(StrV); ok && a1.Kind == skConst {
+				switch name {
+				case "strings.TrimRight":
+					return ret(CStr(strings.TrimRight(a0.S, a1.S)))
+				case "strings.TrimLeft":
+					return ret(CStr(strings.TrimLeft(a0.S, a1.S)))
+				case "strings.Trim":
+					return ret(CStr(strings.Trim(a0.S, a1.S)))
+				case "strings.TrimSuffix":
+					return ret(CStr(strings.TrimSuffix(a0.S, a1.S)))
+				case "strings.TrimPrefix":
+					return ret(CStr(strings.TrimPrefix(a0.S, a1.S)))
+				}
+			}
+		}
+	case "strings.HasPrefix":
+		// a text that begins with a constant (an URL built from a constant base)
+		if pre, ok := args[1].(StrV); ok && pre.Kind == skConst {
+			if sv, ok := args[0].(StrV); ok {
+				head := ""
+				switch {
+				case sv.Kind == skConst:
+					return ret(KBool(strings.HasPrefix(sv.S, pre.S)))
+				case sv.Kind == skConcat && len(sv.Parts) > 0:
+					if h, ok := sv.Parts[0].(StrV); ok && h.Kind == skConst {
+						head = h.S
+					}
+				}
+				if len(head) >= len(pre.S) {
+					return ret(KBool(strings.HasPrefix(head, pre.S)))
+				}
+			}
+		}
+	case "strings.IndexByte", "strings.Index", "strings.IndexRune":
+		// the next separator in what is left of a sentence that is cut word by word (walkCount)
+		if sv, ok := args[0].(StrV); ok {
+			sep := ""
+			switch v := args[1].(type) {
+			case StrV:
+				if v.Kind == skConst {
+					sep = v.S
+				}
+			case IntV:
+				if c, ok := v.Const(); ok && c > 0 && c < 0x80 {
+					sep = string(rune(c))
+				}
+			}
+			if toks, k, ok := e.cursorOf(sv); ok && sep != "" {
+				if ts, ok := toks.Sep.(StrV); ok && ts.Kind == skConst && ts.S == sep {
+					if n, ok := toks.N.Const(); ok {
+						if sv.Kind == skTok || k >= n-1 {
+							return ret(CInt(-1)) // a token holds no separator; nor does what follows the last one
+						}
+						r := RangeInt(0, math.MaxInt32)
+						r.Sep = &SepRef{Toks: toks, K: k}
+						return ret(r)
+					}
+				}
+			}
+		}
 	case "strings.Count":
+		if e.P != nil && e.P.walkCount[x] && e.Ctx != nil && e.Ctx.TokCount != nil {
+			// no tokeniser call: the sentence is cut word by word, this count plus one being the
+			// number of words.  The tokens are those strings.Split would give (virtual call).
+			t := &TokensV{Fn: "strings.Split", In: args[0], Sep: args[1], Site: x, N: CInt(*e.Ctx.TokCount)}
+			if e.walkToks == nil {
+				e.walkToks = map[string]*TokensV{}
+			}
+			e.walkToks[args[0].String()] = t
+			e.record(fr, x, "strings.Split", nil, args, t, st)
+			name = "strings.Count (as tokeniser)"
+			return ret(CInt(*e.Ctx.TokCount - 1))
+		}
 		if e.P != nil && e.P.countOfTok[x] && e.Ctx != nil {
 			// one less than the number of tokens the tokeniser call yields for the same operands
 			if e.Ctx.TokCount != nil {
@@ -1049,19 +1272,7 @@ func (e *Eval) model(fr *frame, x *ssa.Call, callee *ssa.Function, args []AV, st
 	case "(golang.org/x/text/unicode/norm.Form).String":
 		if f, ok := args[0].(IntV); ok {
 			if c, ok := f.Const(); ok && c == int64(norm.NFKD) {
-				if s, ok := args[1].(StrV); ok && s.Kind == skConst {
-					return ret(CStr(norm.NFKD.String(s.S)))
-				}
-				if s, ok := args[1].(StrV); ok && s.Kind == skJoin {
-					if sep, ok := s.Sep.(StrV); ok && sep.Kind == skConst && joinOfListWords(s.Arr) {
-						// NFKD of a join of NFKD-stable words (T5w) with a separator made of starters:
-						// the words are unchanged and only the separator is normalised
-						n := s
-						n.Sep = CStr(norm.NFKD.String(sep.S))
-						return ret(n)
-					}
-				}
-				return ret(StrV{Kind: skNFKD, X: args[1]})
+				return ret(nfkdOf(args[1]))
 			}
 		}
 		return ret(TopStr("normalisation form other than NFKD of " + shortAV(args[1])))
